@@ -16,7 +16,10 @@ EXPLANATION = (
     "one carried D-set, keeps every Some(out), and the table merges tiles and then facets both before the first dualisation and between "
     "the first and the second, with an even number of dualisations (the result has the input's orientation: tiles stay tiles); (4) the "
     "value returned is as_dsym of the current D-set (None exactly for Empty), and as_dsym assigns branching 1 everywhere (branch-free); "
-    "(5) the frozen loop structure (T10) and the stale-snapshot lint (T11) of simplify.rs, cutsets.rs and fundamental_group.rs. NOT decided: "
+    "(5) every literal pair list handed to reglue is a perfect matching of a set of chambers that is closed under the old operation "
+    "(existing chambers: each re-paired chamber's old partner is re-paired too, words compared modulo d.i.i = d and d.i.j = d.j.i for |i-j| > 1; "
+    "freshly grown chambers: each listed exactly once) - otherwise the operation stops being an involution and build_set panics; "
+    "(6) fix_local_2_vertex squeezes only faces not glued to each other; (7) the frozen loop structure (T10) and the stale-snapshot lint (T11) of simplify.rs, cutsets.rs and fundamental_group.rs. NOT decided: "
     "that any move or merge preserves the manifold/its fundamental group, sphericity of tiles and vertex figures, absence of panics on "
     "pseudo-toroidal covers, canonical-form invariance under renumbering -- these quantify over the topology of the rewriting system and "
     "have no necessary condition visible in the shape of the code.")
